@@ -6,7 +6,7 @@ ElemDef == ValSet \cup {NULL}
 
 
 EmitOrder ==
-    PrintT(<<"REPLAY", ToJson([op |-> "order", s |-> s,
+    PrintT(<<"REPLAY", ToJson([op |-> "order", s |-> s, deg |-> OrderDeg,
         quant |-> SetToSeq({[q |-> q, m |-> m, e |-> DefQuantile(q, m)] : q \in Qs, m \in Methods}),
         pct_of |-> SetToSeq({[x |-> x, m |-> m, e |-> DefPercentileOf(x, m)] : x \in ElemDef, m \in PMethods}),
         ranks |-> SetToSeq({[rev |-> r, pct |-> p, e |-> DefRanks(r, p)] : r \in BOOLEAN, p \in BOOLEAN}),
